@@ -67,8 +67,9 @@ type Buffer struct {
 	// successfully committed.
 	committedData []byte
 
-	// commitMu serializes calls to Commit, so that the commit
-	// callback always sees the state established by its own commit check.
+	// commitMu serializes calls to Commit (and keeps writes out
+	// while one is in progress), so that the commit callback always
+	// sees the state established by its own commit check.
 	// It's acquired before mu.
 	commitMu sync.Mutex
 }
@@ -158,6 +159,11 @@ func (b *Buffer) Write(data []byte) (int, error) {
 // write appends data to the buffer after checking that
 // the buffer currently holds offset bytes, unless offset is -1.
 func (b *Buffer) write(offset int64, data []byte) (int, error) {
+	// Don't write while a Commit is between checking the content and
+	// storing it: a write that's accepted then comes after the commit,
+	// so by the time it returns the commit must have taken effect.
+	b.commitMu.Lock()
+	defer b.commitMu.Unlock()
 	b.mu.Lock()
 	defer b.mu.Unlock()
 	if offset != -1 {
